@@ -499,3 +499,8 @@ TRUSTED = list(TRUSTED) + [
 ]
 LEVEL_NOTE = LEVEL_NOTE + (" Float entry points: coq/Gen/FloatGlueGen.v is translated on every run (from_timestamp under a float timestamp, float_timestamp, subtract(seconds=<float>), the plain branch of "
                            "_add_timedelta_ / _subtract_timedelta) and Proofs/FloatGlueFacts.v proves it equal to Model/FloatRoutes.v; DateTime.add under a float `seconds` stays a named primitive.")
+
+
+# ---- last batch of model = code theorems (appended) ----
+TRUSTED = [t for t in TRUSTED] + ["model_is_code_safe_timezone / _instance_foreign: pendulum._safe_timezone is translated from /repo for every kind of argument it distinguishes except None / 'local' (a pendulum timezone object, a number of hours, a name, a FOREIGN tzinfo asked in this order for .key, .localize/.zone, tzname(None) == 'UTC', utcoffset(dt) truncated to whole seconds) and proved equal to the table safe_tz_table; DateTime.instance with _safe_timezone NOT assumed to be the identity = create (convert_naive with the native fold, raise False) in the zone of the object _safe_timezone assigns - the premises of instance_keeps_instant. By hand: the argument record gtzarg (what the code asks of a foreign tzinfo: hasattr / key / zone / tzname / utcoffset answers), pendulum.timezone(name | int) = the cached object (g_timezone)"]
+LEVEL_NOTE = LEVEL_NOTE + " " + "model_is_code_safe_timezone / _instance_foreign: pendulum._safe_timezone is translated from /repo for every kind of argument it distinguishes except None / 'local' (a pendulum timezone object, a number of hours, a name, a FOREIGN tzinfo asked in this order for .key, .localize/.zone, tzname(None) == 'UTC', utcoffset(dt) truncated to whole seconds) and proved equal to the table safe_tz_table; DateTime.instance with _safe_timezone NOT assumed to be the identity = create (convert_naive with the native fold, raise False) in the zone of the object _safe_timezone assigns - the premises of instance_keeps_instant. By hand: the argument record gtzarg (what the code asks of a foreign tzinfo: hasattr / key / zone / tzname / utcoffset answers), pendulum.timezone(name | int) = the cached object (g_timezone)" + "."
